@@ -32,6 +32,7 @@ mod mon;
 mod oracle;
 mod par;
 mod rng;
+mod sess;
 mod workload;
 
 use ev::Tier;
